@@ -60,6 +60,9 @@ def good_sargs(rng):
     if k == 5: return ('str', rng.choice(['rgb(1,2,3)', 'bg_rgb(0x102030)', 'ul_color256(9)', 'dul_rgb(300, 0, 5)',
                                           'fg_colour256(0x10)', 'rgb([1, 2, 3])', 'color256(214)']))
     if k == 6: return ('obj', rng.choice(['1', '31', '34', '1;31', '38;5;214', '38;5;300', '22', '4', '+1', '2;', '10']))
+    if k == 13: return rng.choice([('list', [('int', 38), ('str', 'bold')]), ('str', '38;bold'), ('list', [('int', 38), ('int', 5), ('member', 'RED')]),
+                                   ('list', [('int', 58), ('int', 5), ('str', 'italic'), ('int', 4)]), ('str', '38;5;300;red'),
+                                   ('obj', ['1', '3H']), ('obj', [4, '2J']), ('obj', (1, 31)), ('obj', ['38', '5', '1']), ('obj', 31)])
     if k == 12: return rng.choice([('obj', '3H'), ('str', '[1m'), ('obj', 'x'), ('str', '[2J'), ('obj', '5~'), ('str', '[38;5;'),
                                    ('list', [('obj', '1A'), ('obj', '2B')]), ('list', [('str', '[x'), ('str', '[y'), ('member', 'BOLD')])])
     if k == 7: return ('list', [good_sargs(rng) for _ in range(rng.randrange(0, 3))])
@@ -98,6 +101,7 @@ class Runner:
         self.thorough = thorough
         self.tainted = False
         self.pending_probe = []
+        self.frozen = []
         self.stats = {'ops': {}, 'errors': {}, 'bounds_on_cp': 0, 'bounds_adj_cp': 0, 'bounds': 0,
                       'conflicts': 0, 'text_len': {}, 'timeouts': 0}
         signal.signal(signal.SIGALRM, _alarm)
@@ -123,6 +127,9 @@ class Runner:
         hi = self.max_len if hi is None else hi
         n = self.rng.randint(lo, hi)
         s = ''.join(self.rng.choice(TEXT_ALPHA) for _ in range(n))
+        if n >= 2 and self.rng.random() < 0.12:
+            i = self.rng.randint(0, n - 1)
+            s = (s[:i] + self.rng.choice(['\r\n', '\r', '\r\n\n', '\x0b', '\x1c']) + s[i:])[:max(n, 3)]
         if esc and self.rng.random() < 0.5:
             i = self.rng.randint(0, len(s))
             s = s[:i] + self.rng.choice(['\x1b[2J', '\x1b[', '\x1b', '\x1b[1m', '\x1b[38;5;1m', '\x1b[0m', '\x1b[m']) + s[i:]
@@ -243,6 +250,24 @@ class Runner:
         return []
 
     # ----------------------------------------------------------------- value-semantics frame
+    def check_frozen(self):
+        """C13/C08: an AnsiStr made earlier still has payload == rendering and an unchanged wrapped value"""
+        viol = []
+        for t, snap in self.frozen:
+            try:
+                now = O.Snap(t._s)
+                if not snap.same_as(now):
+                    viol.append(('C08', 'frame', 'an AnsiStr made earlier changed: %r -> %r' % (snap.render[0], now.render[0])))
+                    viol.append(('C13', 'ansistr_immutable', 'an AnsiStr made earlier changed: %r -> %r' % (snap.render[0], now.render[0])))
+                    self.tainted = True
+                if str.__str__(t) != t._s.to_str() or str.__str__(t) != t.to_str() or ('%s' % t) != t._s.to_str():
+                    viol.append(('C13', 'ansistr_payload', 'payload %r but rendering %r' % (str.__str__(t), t._s.to_str())))
+                    self.tainted = True
+            except Exception as e:   # noqa
+                viol.append(('C13', 'ansistr_payload', 'an AnsiStr made earlier can no longer be observed: %r' % (e,)))
+                self.tainted = True
+        return viol
+
     def framed(self, writes, fn):
         """run fn(); every live value not in `writes` (by identity) must be observably unchanged"""
         before = [(v, O.Snap(v)) for v in self.live if not any(v is w for w in writes)]
@@ -250,6 +275,7 @@ class Runner:
         viol = []
         if isinstance(res, tuple) and len(res) == 2 and res[0] == 'ok':
             viol += self.alias_check(res[1], writes)
+        viol += self.check_frozen()
         for v, s in before:
             try:
                 now = O.Snap(v)
@@ -280,7 +306,7 @@ class Runner:
         for r in rs:
             if any(r is w for w in writes):
                 continue
-            for v in self.live:
+            for v in self.live + [t._s for t, _ in self.frozen]:
                 if r is v:
                     viol.append(('C08', 'result_is_source', 'a non-in-place method returned the receiver/argument itself'))
                     return viol
@@ -350,7 +376,10 @@ class Runner:
             if kind == 'copy' and not sargs:
                 return x.copy()
             if kind == 'AnsiStr':
-                return self.A(self.S(x, *[P.build_sarg(a, self.mod) for a in sargs]))
+                t = self.S(x, *[P.build_sarg(a, self.mod) for a in sargs])
+                self.frozen.append((t, O.Snap(t._s)))
+                del self.frozen[:-3]
+                return self.A(t)
             return self.A(x, *[P.build_sarg(a, self.mod) for a in sargs])
         (out), fv = self.framed([], lambda: self.call(run))
         self.count('copy', out)
@@ -1284,11 +1313,17 @@ class Runner:
         rng = self.rng
         x = self.pick()
         t = x._s
+        if rng.random() < 0.2:
+            x = self.A(rng.choice(['(a)', 'c++', '[1+1]?', 'a.b*c', 'C++ c++', '$^', 'a|b|a', '\\d+']), rng.choice(['red', 'bold']))
+            if rng.random() < 0.5:
+                x.apply_formatting('blue', 1, 3)
+            self.add_live(x)
+            t = x._s
         regex = rng.random() < 0.35
         if regex:
             pat = rng.choice(['a+', 'a*', '[ab]', 'b?', '(a)(b)?', '\\s', '.', 'a|b', '^', '$', 'x*', '(?:ab)+'])
         else:
-            pat = rng.choice([self.pattern(x), '.', 'a.', '(', 'a+', '[', '\\', 'A', 'B', '*'])
+            pat = rng.choice([self.pattern(x), self.pattern(x), t, t[:3], t[-3:], '.', 'a.', '(', 'a+', '[', '\\', 'A', 'B', '*', '++', '(a)', '[1+1]'])
         mc = rng.random() < 0.4
         count = rng.choice([-1, -1, 0, 1, 2])
         un = rng.random() < 0.4
@@ -1407,6 +1442,8 @@ class Runner:
             ('expandtabs', (4,), {}), ('simplify', (), {}),
             ('format_matching', (pat, 'bold'), {}), ('unformat_matching', (pat,), {}),
             ('to_str', (rng.choice([None, '>8:red', '*^9'])), {}) if False else ('to_str', (rng.choice([None, '>8:red', '*^9']),), {}),
+            ('to_str', (None, rng.random() < 0.5, True, rng.random() < 0.5), {}), ('to_str', (None, False, False, False), {}),
+            ('to_str', (rng.choice(['', '>7', '*^8:bold']), True, True, True), {}),
             ('settings_at', (rng.randint(-1, n),), {}), ('find_settings', (arg,), {}),
             ('is_formatting_valid', (), {}), ('is_formatting_parsable', (), {}),
             ('count', (pat,), {}), ('find', (pat,), {}), ('endswith', (pat,), {}), ('__len__', (), {}), ('__contains__', (pat,), {}),
@@ -1444,6 +1481,7 @@ class Runner:
 
     def history(self, hidx, length):
         self.live = []
+        self.frozen = []
         start = len(self.steps)
         for _ in range(self.rng.randint(1, 3)):
             self.op_new()
